@@ -464,8 +464,11 @@ def build(world, rt, name='w', tol=None, reorder=False, problem_kwargs=None):
             grp.options['assembled_jac_type'] = s['ln'].split('_')[1]
         if s['ln'].split('_')[0] in ('lnbgs', 'lnbj', 'krylov'):
             ln.options['maxiter'] = 200
-            ln.options['atol'] = tol.get('ln_atol', 1e-12 if not s['ln'].startswith('krylov') else 1e-10)
-            ln.options['rtol'] = tol.get('ln_rtol', 1e-11 if not s['ln'].startswith('krylov') else 1e-8)
+            # GMRES stops on the residual of the solver-scaled system; with ref/res_ref scaling of 1e2 and
+            # derivative entries of 1e-4 an rtol of 1e-8 is visible at the 1e-4 relative level in physical
+            # totals, so Krylov is converged as tightly as the block solvers
+            ln.options['atol'] = tol.get('ln_atol', 1e-12 if not s['ln'].startswith('krylov') else 1e-13)
+            ln.options['rtol'] = tol.get('ln_rtol', 1e-11 if not s['ln'].startswith('krylov') else 1e-12)
             # Linear block solvers measure their residual over the whole vector, including systems that
             # relevance pruning skips, so with irrelevant subsystems they report non-convergence although
             # the requested derivatives are exact (see DESIGN).  Convergence of linear solves is therefore
